@@ -781,3 +781,36 @@ mod saturating;
 mod strict;
 mod unchecked;
 mod wrapping;
+
+// Verification hooks: thin public wrappers around internal functions, compiled only with `--cfg bnum_verif`.
+#[cfg(bnum_verif)]
+macro_rules! verif_hooks {
+    ($BUint: ident, $BInt: ident, $Digit: ident) => {
+        impl<const N: usize> $BUint<N> {
+            pub fn verif_unchecked_shl_internal(self, rhs: ExpType) -> Self {
+                unsafe { Self::unchecked_shl_internal(self, rhs) }
+            }
+            pub fn verif_unchecked_shr_pad_internal(self, rhs: ExpType, neg: bool) -> Self {
+                unsafe {
+                    if neg {
+                        Self::unchecked_shr_pad_internal::<true>(self, rhs)
+                    } else {
+                        Self::unchecked_shr_pad_internal::<false>(self, rhs)
+                    }
+                }
+            }
+            pub fn verif_rotate_digits_left(self, n: usize) -> Self {
+                unsafe { self.rotate_digits_left(n) }
+            }
+            pub fn verif_unchecked_rotate_left(self, rhs: ExpType) -> Self {
+                unsafe { self.unchecked_rotate_left(rhs) }
+            }
+            pub fn verif_last_digit_index(&self) -> usize {
+                self.last_digit_index()
+            }
+        }
+    };
+}
+
+#[cfg(bnum_verif)]
+crate::macro_impl!(verif_hooks);
